@@ -36,7 +36,9 @@ CONSTANTS MaxH,        \* heights 0..MaxH
           Depth,       \* configured clean-up depth (cleanRemovedBallotDeep / ...ProposalDeep)
           MaxSteps
 
-BKey   == [h : 0..MaxH, r : Rounds, kd : Kinds]     \* stage point + suffrage-confirm flag
+(* stage point + suffrage-confirm flag; the genesis height has round 0 only (a stage  *)
+(* point of height 0 and another round is not a valid point: Ballot() refuses it)     *)
+BKey   == {k \in [h : 0..MaxH, r : Rounds, kd : Kinds] : k.h = 0 => k.r = 0}
 Triple == [h : 0..MaxH, r : Rounds, p : Proposers, b : Prevs]
 PFact  == [t : Triple, k : 1..NVar]
 
